@@ -14,13 +14,13 @@ HARNESSES = [(PKG, HARNESS, "c14"), ("network/transport/v2", ["network/transport
 ROOT = os.path.dirname(os.path.dirname(os.path.abspath(__file__)))
 
 REQUIRED = ["no_loss", "admitted_by_commit", "only_admitted_delivered", "not_admitted_unchanged", "no_call_after_done",
-            "no_call_after_done_split", "completed_job_gone", "call_after_done_without_presence_check", "shared_key_witness",
+            "no_call_after_done_split", "completed_job_gone", "call_after_done_without_presence_check", "call_after_done_when_write_back_recreates", "shared_key_witness",
             "delay_monotone", "delay_doubles", "typed_of_filter", "realSubs_are_the_registrations",
             "restart_redelivers", "delivered_at_least_once", "eventual_delivery", "eventual_delivery_from_start", "failed_visible",
             "completed_or_visible", "parked_witness",
             "fact_retry_constants", "fact_retry_arithmetic", "fact_retry_backoff", "fact_notifyNow_retries",
             "fact_run_replays_every_job", "fact_failed_events_threshold", "fact_save_in_write_tx_notify_after_commit",
-            "fact_writePayload_skips_stored_payload", "fact_payload_handler_sequence", "fact_registrations"]
+            "fact_writePayload_skips_stored_payload", "fact_write_back_skips_removed_event", "fact_payload_handler_sequence", "fact_registrations"]
 
 
 def sel(filters, tx, ty):
@@ -82,6 +82,7 @@ def oracle(h, threshold):
     completed = {}      # (s, r) -> index of completion
     called = set()      # (s, r) with a non-crash call
     finfail_keys = set()
+    fin_during = set()
     prev_jobs = {}
     last_restart_stopped = False
     seen = set()
@@ -117,12 +118,16 @@ def oracle(h, threshold):
                 if not sel(subs[s]["filters"], txs[r], ty):
                     report("C14:delivered-event-not-selected", f"subscriber {subs[s]['name']} called for {ty} event of ref {r} that its filter rejects", i)
                 if (s, r) in completed:
-                    how = "second-WritePayload-recreates-finished-job" if kind == "wp" or any(
-                        o2["op"] == "wp" and o2["ref"] == r for o2 in h.ops[completed[(s, r)] + 1:i + 1]) else "job-recreated-by-" + kind
+                    how = "write-back-recreates-job-finished-during-the-call" if (s, r) in fin_during else (
+                        "second-WritePayload-recreates-finished-job" if kind == "wp" or any(
+                            o2["op"] == "wp" and o2["ref"] == r for o2 in h.ops[completed[(s, r)] + 1:i + 1]) else "job-recreated-by-" + kind)
                     report("C14:call-after-completion:" + how,
                            f"subscriber {subs[s]['name']} called again for {ty} event of ref {r} (line {h.start + i}) after its completion was recorded (line {h.start + completed[(s, r)]})", i)
             if o == "doneFinishFail":
                 finfail_keys.add((s, r))
+            if o == "notDoneFin":   # Finished() ran (and deleted the job) while the receiver was running: completion is on record
+                completed.setdefault((s, r), i)
+                fin_during.add((s, r))
             if o != "crash":
                 called.add((s, r))
         # --- completion records: done calls whose job is gone, Finished from outside that removed a job
